@@ -33,6 +33,7 @@ VARIABLE ps
 pvars == <<ps>>
 
 BackoffUnit == 10
+BackoffMax == 80
 
 Drop(f, S)   == [x \in DOMAIN f \ S |-> f[x]]
 Put(f, k, v) == (k :> v) @@ f
@@ -57,7 +58,8 @@ P0 == [cfg    |-> [seq |-> FALSE, delay |-> 0, retry |-> FALSE, rc |-> FALSE],
        tokEp  |-> <<>>,    \* constructor token -> [k, ep] membership it was made in
        act    |-> <<>>,    \* active instance -> [k, ep]
        mustDie|-> {},      \* instances that must be cancelled in the next snapshot
-       retry  |-> <<>>,    \* key -> deadline of the owed re-run (-1: not yet fixed)
+       retry  |-> <<>>,    \* key -> deadline of the owed re-run (-1, -2: not yet fixed)
+       boexp  |-> FALSE, fresh |-> {},   \* see Cfg5
        want   |-> {},      \* keys requested (SetKey / SyncKeys) and not removed since: they must stay present
                            \* whatever timers fire meanwhile (judged in every mode; not with reference counting)
        bad    |-> {}]
@@ -158,12 +160,17 @@ Model06(s, e) ==
 -----------------------------------------------------------------------------
 (* Events *)
 
-Cfg(s, seq, delay, retry, rc) ==
-    [s EXCEPT !.cfg = [seq |-> seq, delay |-> delay, retry |-> retry, rc |-> rc]]
+\* boexp: the retry backoff is the library's own exponential one (WithRetry: 10, 20, 40, 80, 80, ...; one
+\* object per key, constructed with the key's routine) instead of the harness's constant one.  Only the
+\* first failure after a key's routine was constructed has a sharp deadline then (10); later ones are
+\* bounded by the maximal interval (which failures advanced the sequence is not always decidable).
+Cfg5(s, seq, delay, retry, rc, boexp) ==
+    [s EXCEPT !.cfg = [seq |-> seq, delay |-> delay, retry |-> retry, rc |-> rc], !.boexp = boexp]
+Cfg(s, seq, delay, retry, rc) == Cfg5(s, seq, delay, retry, rc, FALSE)
 
 \* the harness-owned constructor was called for key k and returned data token tok
 Ctor(s, k, tok) ==
-    [s EXCEPT !.newTok = Put(@, k, tok), !.tokEp = Put(@, tok, [k |-> k, ep |-> Ep(s, k)])]
+    [s EXCEPT !.newTok = Put(@, k, tok), !.tokEp = Put(@, tok, [k |-> k, ep |-> Ep(s, k)]), !.fresh = @ \cup {k}]
 
 \* keys on which the call restarts a failed routine (the retry obligation is dropped)
 Restarts(e) ==
@@ -227,7 +234,10 @@ Leave(s, i, out, dead) ==
                    THEN [s1 EXCEPT !.failed = @ \cup {k},
                                    !.fuzzy = IF k \in DOMAIN s1.pend THEN @ \cup {k} ELSE @]
                    ELSE s1
-         IN IF fail /\ s.cfg.retry /\ cur /\ s.pctx # 0 THEN [s2 EXCEPT !.retry = Put(@, k, -1)] ELSE s2
+             \* -1: deadline = next quiescent point + BackoffUnit; -2: + BackoffMax (see Cfg5)
+             s3 == IF fail THEN [s2 EXCEPT !.fresh = @ \ {k}] ELSE s2
+         IN IF fail /\ s.cfg.retry /\ cur /\ s.pctx # 0
+            THEN [s3 EXCEPT !.retry = Put(@, k, IF s.boexp /\ k \notin s.fresh THEN -2 ELSE -1)] ELSE s3
 
 Tick(s, d) ==
     LET t == s.now + d
@@ -242,7 +252,8 @@ Quiet(s) ==
     IF s.off THEN s
     ELSE LET late == {k \in DOMAIN s.retry : s.retry[k] >= 0 /\ s.now > s.retry[k]}
              s1 == Flag(s, late = {}, "RetryLost")
-         IN [s1 EXCEPT !.retry = [k \in DOMAIN @ \ late |-> IF @[k] = -1 THEN s.now + BackoffUnit ELSE @[k]]]
+         IN [s1 EXCEPT !.retry = [k \in DOMAIN @ \ late |-> IF @[k] = -1 THEN s.now + BackoffUnit
+                                                         ELSE IF @[k] = -2 THEN s.now + BackoffMax ELSE @[k]]]
 
 Teardown(s) == [s EXCEPT !.off = TRUE]
 
